@@ -54,4 +54,9 @@ for p in "$ROOT"/mutants/neutral_*.patch; do
     [ -f "$p" ] || continue
     run_neutral "$(basename "$p" .patch)" "$p"
 done
+# correct, non-trivial changes written by sub-agents (new features, caches, refactored emitted code)
+for d in "$ROOT"/neutral/*/; do
+    [ -f "$d/patch.diff" ] || continue
+    run_neutral "neutral/$(basename "$d")" "$d/patch.diff"
+done
 (cd "$ROOT" && for prop in C15 C16 C20; do if [ -n "$ONLY" ] && [ "$ONLY" != "$prop" ]; then continue; fi; ./run.sh $prop quick >/dev/null 2>&1; echo "clean tree $prop exit=$?"; done) | tee -a "$OUT"
